@@ -206,14 +206,81 @@ def run(ck: Check):
     ck.cover(evaluations=len(vals), distinct=(("v", v) for v in vals if not -64 <= v < 64),
              samples=[{"value": v, "wuleb": real[2 * i], "wsleb": real[2 * i + 1]} for i, v in list(enumerate(vals))[:: max(1, len(vals) // 3)]][:3],
              dist={"values_32bit": sum(1 for v in vals if -2 ** 31 <= v < 2 ** 32), "values_outside": sum(1 for v in vals if not -2 ** 31 <= v < 2 ** 32)})
+    buffered_stream(ck, dex, cm, drv)
     ck.assumptions.append("struct.pack/unpack of one byte is modelled as list head/cons; "
                           "Python int & and >> on negatives are modelled as floor mod/div (checked by the correspondence)")
+
+
+def buffered_stream(ck: Check, dex, cm, drv):
+    """The parser reads through io.BufferedReader, not BytesIO: place every kind of item so that it
+    straddles the end of the reader's buffered block (io.DEFAULT_BUFFER_SIZE) after a sequential read,
+    and after a seek; model and definition oracle see the item bytes only (position-independent)."""
+    B = io.DEFAULT_BUFFER_SIZE
+    rng = ck.rng
+    items = [bytes([0x80] * k + [t]) for k in range(0, 5) for t in (0x00, 0x01, 0x3f, 0x40, 0x7f, 0x08, 0x78, 0x0f)]
+    items += [enc_unsigned(v) for v in (100, 300, 0x3fff, 0x4000, 0x1fffff, 0x200000, 0x8000000, 0xfffffff, 0xffffffff)]
+    for _ in range(40 if ck.quick else 400):
+        n = rng.choice((2, 3, 4, 5))
+        items.append(bytes(rng.randrange(128, 256) for _ in range(n - 1)) + bytes([rng.randrange(0, 16)]))
+    kinds = {"uleb": dex.readuleb128, "ulebp1": dex.readuleb128p1, "sleb": dex.readsleb128}
+    reqs, real, cases = [], [], []
+    for mult in (1, 2, 3):
+        for d in range(0, 7):
+            for item in items:
+                pos = mult * B - d
+                data = bytes(rng.randrange(256) for _ in range(16)) * (pos // 16 + 1)
+                data = data[:pos] + item + b"\x55" * 8
+                for how in ("seq", "seek"):
+                    for k, fn in kinds.items():
+                        br = io.BufferedReader(io.BytesIO(data))
+                        if how == "seq":
+                            br.read(pos)
+                        else:
+                            br.read(1); br.seek(pos)
+                        try:
+                            v = fn(cm, br); r = f"ok {v} {br.tell() - pos}"
+                        except struct.error:
+                            r = "err"
+                        except Exception as e:  # noqa
+                            r = "other:" + type(e).__name__
+                        reqs.append(f"{k} {hexs(item + bytes([0x55] * 8))}"); real.append(r)
+                        cases.append({"op": k, "bytes": hexs(item), "buffered": how, "offset": pos})
+    model = drv.ask(reqs)
+    ck.compare("leb-read-buffered", reqs, real, model)
+    for c, r in zip(cases, real):
+        item = bytes.fromhex(c["bytes"])
+        it = items_of(item)
+        if it is None:
+            continue
+        exp = None
+        if c["op"] == "uleb" and spec_unsigned(it) is not None:
+            exp = f"ok {spec_unsigned(it)} {len(it)}"
+        if c["op"] == "ulebp1" and spec_unsigned(it) is not None:
+            exp = f"ok {spec_unsigned(it) - 1} {len(it)}"
+        if c["op"] == "sleb" and spec_signed(it) is not None:
+            exp = f"ok {spec_signed(it)} {len(it)}"
+        if exp is not None and r != exp:
+            ck.fail(c, "LEB128 read through a BufferedReader across the buffer boundary decodes to the wrong value", None, exp, r)
+    ck.cover(evaluations=len(cases), distinct=(("b", c["op"], c["bytes"], c["buffered"], c["offset"]) for c in cases),
+             samples=[cases[7]], dist={"buffered_reader_cases": len(cases)})
 
 
 def replay(ck: Check, rp):
     dex, cm = _real()
     c = rp.get("case") or rp.get("first_divergence", {})
     print("replay", c)
+    if "buffered" in c:
+        item = bytes.fromhex(c["bytes"]); pos = c["offset"]
+        data = b"\xaa" * pos + item + b"\x55" * 8
+        fn = {"uleb": dex.readuleb128, "ulebp1": dex.readuleb128p1, "sleb": dex.readsleb128}[c["op"]]
+        br = io.BufferedReader(io.BytesIO(data))
+        if c["buffered"] == "seq":
+            br.read(pos)
+        else:
+            br.read(1); br.seek(pos)
+        print("buffered read at", pos, c["op"], canon_read(fn, cm, br), "item", c["bytes"],
+              "spec:", spec_unsigned(items_of(item)), spec_signed(items_of(item)))
+        return 0
     if "bytes" in c:
         s = bytes.fromhex(c["bytes"]) if c["bytes"] != "-" else b""
         for k, fn in (("uleb", dex.readuleb128), ("ulebp1", dex.readuleb128p1), ("sleb", dex.readsleb128)):
